@@ -134,7 +134,27 @@ def main():
         return text, rm.project(rt.parse_kind(k, text, {"pedd": False} if kind == "rest_strip" else None))
 
     def nows(s):
-        return None if s is None else "".join(s.split())
+        """whitespace outside string literals is immaterial to a type expression; inside quotes a run of blanks counts as one"""
+        if s is None:
+            return None
+        out, quote, prev_blank = [], None, False
+        for ch in s:
+            if quote:
+                if ch.isspace():
+                    if not prev_blank:
+                        out.append(" ")
+                    prev_blank = True
+                    continue
+                prev_blank = False
+                out.append(ch)
+                if ch == quote:
+                    quote = None
+            elif ch in "'\"":
+                quote, prev_blank = ch, False
+                out.append(ch)
+            elif not ch.isspace():
+                out.append(ch)
+        return "".join(out)
 
     for cid, spec in cases(L):
         for kind in KINDS:
